@@ -40,8 +40,8 @@ func allChecks() []Check {
 		{
 			ID: "C01", Title: "Parsing is total: a tree or an error, never a crash, hang or half-built tree",
 			Runs: []HarnessRun{
-				{Harness: "VP_C01_bytes", Quick: map[string]int{"L": 3}, Thorough: map[string]int{"L": 4}, MustReach: []string{"C01/bytes/accepted", "C01/bytes/rejected"}, PanicLabel: "C01/bytes/no-panic"},
 				{Harness: "VP_C01_pool", Quick: map[string]int{}, MustReach: []string{"C01/bytes/accepted", "C01/bytes/rejected"}, PanicLabel: "C01/pool/no-panic", SampleEvery: 3},
+				{Harness: "VP_C01_bytes", Quick: map[string]int{"L": 3}, Thorough: map[string]int{"L": 4}, MustReach: []string{"C01/bytes/accepted", "C01/bytes/rejected"}, PanicLabel: "C01/bytes/no-panic"},
 				{Harness: "VP_C01_lists", Quick: map[string]int{"K": 3}, Thorough: map[string]int{"K": 4}, MustReach: []string{"C01/lists/accepted", "C01/lists/rejected"}, PanicLabel: "C01/lists/no-panic"},
 				{Harness: "VP_C01_tokens", Quick: map[string]int{"K": 2}, Thorough: map[string]int{"K": 3}, MustReach: []string{"C01/tokens/accepted", "C01/tokens/rejected"}, PanicLabel: "C01/tokens/no-panic"},
 			},
@@ -54,13 +54,13 @@ func allChecks() []Check {
 		{
 			ID: "C02", Title: "The tree follows the grammar: precedence, associativity, binding, rejection",
 			Runs: []HarnessRun{
+				{Harness: "VP_C02_pool", Quick: map[string]int{}, MustReach: []string{"C02/bytes/derivable", "C02/bytes/underivable"}, PanicLabel: "C02/pool/no-panic", SampleEvery: 3},
 				{Harness: "VP_C02_tokens", Quick: map[string]int{"K": 3}, Thorough: map[string]int{"K": 4}, MustReach: []string{"C02/tokens/derivable", "C02/tokens/underivable"}, PanicLabel: "C02/tokens/no-panic"},
 				{Harness: "VP_C02_ops", Quick: map[string]int{"N": 3, "P": 0, "ALPHA": 0}, Thorough: map[string]int{"N": 3, "P": 0, "ALPHA": 0}, MustReach: []string{"C02/ops/derivable", "C02/ops/underivable"}, PanicLabel: "C02/ops/no-panic"},
 				{Harness: "VP_C02_ops", Quick: map[string]int{"N": 4, "P": 0, "ALPHA": 1}, Thorough: map[string]int{"N": 5, "P": 0, "ALPHA": 1}, MustReach: []string{"C02/ops/derivable"}, PanicLabel: "C02/ops/no-panic"},
 				{Harness: "VP_C02_bytes", Quick: map[string]int{"L": 6, "ALPHA": 1}, Thorough: map[string]int{"L": 7, "ALPHA": 1}, MustReach: []string{"C02/bytes/invalid", "C02/bytes/derivable"}, PanicLabel: "C02/bytes/no-panic"},
 				{Harness: "VP_C02_bytes", Quick: map[string]int{"L": 2, "ALPHA": 0}, Thorough: map[string]int{"L": 3, "ALPHA": 0}, MustReach: []string{"C02/bytes/derivable", "C02/bytes/underivable"}, PanicLabel: "C02/bytes/no-panic"},
 				{Harness: "VP_C02_ops", Quick: map[string]int{"N": 1, "P": 1, "ALPHA": 0}, Thorough: map[string]int{"N": 2, "P": 1, "ALPHA": 0}, MustReach: []string{"C02/ops/derivable"}, PanicLabel: "C02/ops/no-panic"},
-				{Harness: "VP_C02_pool", Quick: map[string]int{}, MustReach: []string{"C02/bytes/derivable", "C02/bytes/underivable"}, PanicLabel: "C02/pool/no-panic", SampleEvery: 3},
 				{Harness: "VP_C02_lists", Quick: map[string]int{"K": 2}, Thorough: map[string]int{"K": 3}, MustReach: []string{"C02/lists/derivable", "C02/lists/underivable"}, PanicLabel: "C02/lists/no-panic"},
 				{Harness: "VP_C02_postfix", Quick: map[string]int{"K": 5, "CUT": 0}, Thorough: map[string]int{"K": 6, "CUT": 0}, MustReach: []string{"C02/postfix/derivable", "C02/postfix/underivable"}, PanicLabel: "C02/postfix/no-panic"},
 			},
@@ -76,12 +76,14 @@ func allChecks() []Check {
 		{
 			ID: "C03", Title: "Evaluation is total: a value or an error, never a panic",
 			Runs: []HarnessRun{
+				{Harness: "VP_C03_extreme", Quick: map[string]int{"ONLY": -1}, MustReach: []string{"C03/extreme/done"}, PanicLabel: "C03/extreme/no-panic", SampleEvery: 2},
+				{Harness: "VP_smoke_eval", Quick: map[string]int{"FROM": 0, "TO": 1000}, SampleEvery: 1, PanicLabel: "C03/smoke/no-panic"},
 				{Harness: "VP_C03_calls", Quick: map[string]int{"A": 2}, Thorough: map[string]int{"A": 3}, MustReach: []string{"C03/calls/value", "C03/calls/error"}, PanicLabel: "C03/calls/no-panic"},
 				{Harness: "VP_C03_ops", Quick: map[string]int{}, MustReach: []string{"C03/ops/value", "C03/ops/error"}, PanicLabel: "C03/ops/no-panic"},
 				{Harness: "VP_C03_positions", Quick: map[string]int{"S": 2}, Thorough: map[string]int{"S": 3}, MustReach: []string{"C03/positions/value", "C03/positions/error"}, PanicLabel: "C03/positions/no-panic"},
-				{Harness: "VP_smoke_eval", Quick: map[string]int{"FROM": 0, "TO": 1000}, SampleEvery: 1, PanicLabel: "C03/smoke/no-panic"},
 			},
-			Bounds: map[string]string{"calls": "a call of each of the 48 builtin names and of 10 other names (missing name, non-function, host functions with a trailing slice / one / three / non-error results / interface / map / variadic parameters, a boolean) with 0..A arguments, each over 11 argument kinds (null, typed nil pointer, symbolic bool, numbers and strings from concrete pools incl. an invalid regular expression, arrays, map, slice of maps, time, func), with and without spread; quick A=2, thorough A=3",
+			Bounds: map[string]string{"extreme": "CONCRETE POOL (not symbolic): 45 short formulas at the extremes (exponents to 10^+-999999999 under every numeric builtin and operator, pad lengths up to 9e18, locals bound to `this` and then printed / compared / padded): each terminates with a value or an error; three of them are the listed known finding",
+				"calls":     "a call of each of the 48 builtin names and of 10 other names (missing name, non-function, host functions with a trailing slice / one / three / non-error results / interface / map / variadic parameters, a boolean) with 0..A arguments, each over 11 argument kinds (null, typed nil pointer, symbolic bool, numbers and strings from concrete pools incl. an invalid regular expression, arrays, map, slice of maps, time, func), with and without spread; quick A=2, thorough A=3",
 				"ops":       "every binary and prefix operator, typeof, ?:, member access (. and !.) on maps/structs/other kinds, array literal and assignment over every pair of operand kinds",
 				"positions": "left/right/mid/lpad/rpad with strings of 0..S symbolic bytes and every position in -4..7",
 				"smoke":     "translator validation: 83 fixed formulas evaluated in the engine and natively, results must be identical"},
@@ -91,37 +93,39 @@ func allChecks() []Check {
 		{
 			ID: "C04", Title: "Decimal arithmetic is exact; nothing passes through binary floating point",
 			Runs: []HarnessRun{
-				{Harness: "VP_C04_entry_int", Quick: map[string]int{"LO": 0, "HI": 63}, MustReach: []string{"C04/entry-int/done"}, PanicLabel: "C04/entry-int/no-panic"},
-				{Harness: "VP_C04_entry_int", Quick: map[string]int{"LO": -1, "HI": 0}, MustReach: []string{"C04/entry-int/done"}, PanicLabel: "C04/entry-int/no-panic"},
 				{Harness: "VP_C04_entry_float", Quick: map[string]int{}, MustReach: []string{"C04/entry-float/done"}, PanicLabel: "C04/entry-float/no-panic", SampleEvery: 1},
 				{Harness: "VP_C04_handback", Quick: map[string]int{}, MustReach: []string{"C04/handback/done"}, PanicLabel: "C04/handback/no-panic", SampleEvery: 1},
+				{Harness: "VP_C04_handback_ulp", Quick: map[string]int{}, MustReach: []string{"C04/handback-ulp/done"}, PanicLabel: "C04/handback-ulp/no-panic", SampleEvery: 1},
 				{Harness: "VP_C04_wide", Quick: map[string]int{}, MustReach: []string{"C04/wide/done"}, PanicLabel: "C04/wide/no-panic", SampleEvery: 3},
+				{Harness: "VP_C04_twice", Quick: map[string]int{}, MustReach: []string{"C04/twice/done"}, PanicLabel: "C04/twice/no-panic", SampleEvery: 1},
+				{Harness: "VP_C04_quo", Quick: map[string]int{}, MustReach: []string{"C04/quo/done"}, PanicLabel: "C04/quo/no-panic", SampleEvery: 3},
+				{Harness: "VP_C04_entry_int", Quick: map[string]int{"LO": 0, "HI": 63}, MustReach: []string{"C04/entry-int/done"}, PanicLabel: "C04/entry-int/no-panic"},
+				{Harness: "VP_C04_entry_int", Quick: map[string]int{"LO": -1, "HI": 0}, MustReach: []string{"C04/entry-int/done"}, PanicLabel: "C04/entry-int/no-panic"},
 				{Harness: "VP_C04_arith", Quick: map[string]int{"OP": 0, "CB": 1000000, "E": 1, "DB": 0}, Thorough: map[string]int{"OP": 0, "CB": 1000000000, "E": 2, "DB": 0}, MustReach: []string{"C04/arith/done"}, PanicLabel: "C04/arith/no-panic"},
 				{Harness: "VP_C04_arith", Quick: map[string]int{"OP": 1, "CB": 1000000, "E": 1, "DB": 0}, Thorough: map[string]int{"OP": 1, "CB": 1000000000, "E": 2, "DB": 0}, MustReach: []string{"C04/arith/done"}, PanicLabel: "C04/arith/no-panic"},
 				{Harness: "VP_C04_arith", Quick: map[string]int{"OP": 2, "CB": 100000, "E": 1, "DB": 0}, Thorough: map[string]int{"OP": 2, "CB": 1000000, "E": 2, "DB": 0}, MustReach: []string{"C04/arith/done"}, PanicLabel: "C04/arith/no-panic"},
 				{Harness: "VP_C04_arith", Quick: map[string]int{"OP": 2, "CB": 4294967296, "E": 0, "DB": 0}, MustReach: []string{"C04/arith/done"}, PanicLabel: "C04/arith/no-panic"},
-				{Harness: "VP_C04_twice", Quick: map[string]int{}, MustReach: []string{"C04/twice/done"}, PanicLabel: "C04/twice/no-panic", SampleEvery: 1},
-				{Harness: "VP_C04_quo", Quick: map[string]int{}, MustReach: []string{"C04/quo/done"}, PanicLabel: "C04/quo/no-panic", SampleEvery: 3},
 				{Harness: "VP_C04_arith", Quick: map[string]int{"OP": 3, "CB": 1000, "E": 1, "DB": 6}, Thorough: map[string]int{"OP": 3, "CB": 1000, "E": 1, "DB": 30}, MustReach: []string{"C04/arith/done"}, PanicLabel: "C04/arith/no-panic"},
 			},
 			Bounds: map[string]string{"arith": "[a OP b] evaluated by the real runner for a, b = (-1)^s * c * 10^e with symbolic sign and coefficient c < CB and every exponent pair in [-E,E]^2 (real decimal add/mul/quorem code executed symbolically) vs exact integer arithmetic at the common exponent; result context asserted to be precision 34 / half-even; OP 0,1 (+,-): CB=10^6 quick / 10^9 thorough; OP 2 (*): CB=10^5 / 10^6; OP 3 (%): the divisor's coefficient is case-split over 1..DB-1 (symbolic-by-symbolic division does not finish), dividend c < 1000",
-				"arith-mul32": "'*' with both coefficients symbolic below 2^32 at exponent 0: every product up to 2^64 incl. the window [2^63, 2^64) where a signed 64-bit intermediate would wrap",
-				"twice":       "CONCRETE POOL (not symbolic): 15 formulas (the statement's examples, negated literals, literals next to int / int64 / float64 data) parsed once and evaluated three times in fresh runners: every evaluation gives the same exact result",
-				"quo":         "CONCRETE POOL (not symbolic): 121 quotients incl. exact ties at the 35th digit, 34-digit operands, operands around 2^63 / 2^64, mixed signs and exponents; expected values computed independently (Python decimal prec 34 ROUND_HALF_EVEN)",
-				"entry-float": "CONCRETE POOL (not symbolic): 18 float64 data values incl. 0.1, 0.3, 2^53+1, 1e19, 2^63, 1e22, 5e-324, MaxFloat64 with hand-written expected decimal (coefficient, exponent); strconv's shortest formatting of a symbolic float is not encodable",
-				"wide":        "CONCRETE POOL (not symbolic): 354 cases of + - * % on operands of up to 34 digits (incl. a systematic family of results just below/above a power of ten with exponent gaps 32..36) incl. results that must be rounded half-even to 34 digits; expected values computed independently (Python decimal prec 34 ROUND_HALF_EVEN, exact big integers for %)",
-				"handback":    "CONCRETE POOL (not symbolic): 18 formulas whose result is an integer of at most 15 digits scaled by a power of ten within 10^-22..10^22 (incl. 19-digit values beyond 2^63): the float64 handed back by Resolve must be the nearest one",
-				"entry-int":   "a Go int64 / int / int32 data value n (one symbolic 64-bit value, 1 <= |n| < 2^63, plus |n| < 1000 incl. 0) read back through the evaluator equals n exactly"},
+				"arith-mul32":  "'*' with both coefficients symbolic below 2^32 at exponent 0: every product up to 2^64 incl. the window [2^63, 2^64) where a signed 64-bit intermediate would wrap",
+				"twice":        "CONCRETE POOL (not symbolic): 15 formulas (the statement's examples, negated literals, literals next to int / int64 / float64 data) parsed once and evaluated three times in fresh runners: every evaluation gives the same exact result",
+				"quo":          "CONCRETE POOL (not symbolic): 121 quotients incl. exact ties at the 35th digit, 34-digit operands, operands around 2^63 / 2^64, mixed signs and exponents; expected values computed independently (Python decimal prec 34 ROUND_HALF_EVEN)",
+				"entry-float":  "CONCRETE POOL (not symbolic): 18 float64 data values incl. 0.1, 0.3, 2^53+1, 1e19, 2^63, 1e22, 5e-324, MaxFloat64 with hand-written expected decimal (coefficient, exponent); strconv's shortest formatting of a symbolic float is not encodable",
+				"wide":         "CONCRETE POOL (not symbolic): 354 cases of + - * % on operands of up to 34 digits (incl. a systematic family of results just below/above a power of ten with exponent gaps 32..36) incl. results that must be rounded half-even to 34 digits; expected values computed independently (Python decimal prec 34 ROUND_HALF_EVEN, exact big integers for %)",
+				"handback-ulp": "CONCRETE POOL (not symbolic): 21 formulas whose result is outside the exactly-handed-back class (34-digit quotients, 17-35 digit literals, subnormal and extreme magnitudes, half-way cases): the float64 is within four units in the last place of the correctly rounded one (computed independently)",
+				"handback":     "CONCRETE POOL (not symbolic): 18 formulas whose result is an integer of at most 15 digits scaled by a power of ten within 10^-22..10^22 (incl. 19-digit values beyond 2^63): the float64 handed back by Resolve must be the nearest one",
+				"entry-int":    "a Go int64 / int / int32 data value n (one symbolic 64-bit value, 1 <= |n| < 2^63, plus |n| < 1000 incl. 0) read back through the evaluator equals n exactly"},
 			Outside:     []string{"n = MinInt64", "'/' on symbolic operands (the library scales the dividend by 10^34 into math/big: division on symbolic words does not finish in any back end; a concrete pool is checked instead)", "results beyond 34 digits (the half-even rounding regime needs coefficients beyond 64 bits)", "float64 data values and the final float64 hand-back (strconv formatting/parsing of symbolic floats is not encodable)", "chains of operations"},
 			Assumptions: commonAssumptions,
 		},
 		{
 			ID: "C05", Title: "Ordering and equality are lawful and representation-independent",
 			Runs: []HarnessRun{
+				{Harness: "VP_C05_pool", Quick: map[string]int{}, MustReach: []string{"C05/pool/done"}, PanicLabel: "C05/pool/no-panic", SampleEvery: 7},
 				{Harness: "VP_C05_numbers", Quick: map[string]int{"CB": 10, "E": 0, "WIDE": 0, "NEAR": 1}, Thorough: map[string]int{"CB": 10, "E": 0, "WIDE": 0, "NEAR": 2}, MustReach: []string{"C05/numbers/done"}, PanicLabel: "C05/numbers/no-panic"},
 				{Harness: "VP_C05_numbers", Quick: map[string]int{"CB": 100, "E": 1, "WIDE": 20, "NEAR": 0}, Thorough: map[string]int{"CB": 1000, "E": 1, "WIDE": 36, "NEAR": 0}, MustReach: []string{"C05/numbers/done"}, PanicLabel: "C05/numbers/no-panic"},
 				{Harness: "VP_C05_numbers", Quick: map[string]int{"CB": 1000000, "E": 2, "WIDE": 0, "NEAR": 0}, Thorough: map[string]int{"CB": 1000000000, "E": 4, "WIDE": 0, "NEAR": 0}, MustReach: []string{"C05/numbers/done"}, PanicLabel: "C05/numbers/no-panic"},
-				{Harness: "VP_C05_pool", Quick: map[string]int{}, MustReach: []string{"C05/pool/done"}, PanicLabel: "C05/pool/no-panic", SampleEvery: 7},
 				{Harness: "VP_C05_strings", Quick: map[string]int{"S": 3}, Thorough: map[string]int{"S": 5}, MustReach: []string{"C05/strings/done"}, PanicLabel: "C05/strings/no-panic"},
 				{Harness: "VP_C05_kinds", Quick: map[string]int{}, MustReach: []string{"C05/kinds/done"}, PanicLabel: "C05/kinds/no-panic"},
 			},
@@ -137,10 +141,10 @@ func allChecks() []Check {
 		{
 			ID: "C06", Title: "One notion of truthiness drives every selection operator",
 			Runs: []HarnessRun{
-				{Harness: "VP_C06_truthiness", Quick: map[string]int{}, MustReach: []string{"C06/done"}, PanicLabel: "C06/no-panic", SampleEvery: 13},
 				{Harness: "VP_C06_effects", Quick: map[string]int{}, MustReach: []string{"C06/effects/done"}, PanicLabel: "C06/effects/no-panic", SampleEvery: 5},
 				{Harness: "VP_C06_text", Quick: map[string]int{}, MustReach: []string{"C06/text/done"}, PanicLabel: "C06/text/no-panic", SampleEvery: 3},
 				{Harness: "VP_C06_reeval", Quick: map[string]int{}, MustReach: []string{"C06/reeval/done"}, PanicLabel: "C06/reeval/no-panic", SampleEvery: 29},
+				{Harness: "VP_C06_truthiness", Quick: map[string]int{}, MustReach: []string{"C06/done"}, PanicLabel: "C06/no-panic", SampleEvery: 13},
 			},
 			Bounds: map[string]string{"truthiness": "condition value over {null, typed nil pointer, bool, finite number (symbolic, incl. 0 and -0), NaN, +-Inf, string of 0..2 symbolic bytes, arrays, map, time, func} x {!!x, !x, c?a:b with recording branches, &&, ||, ??, one nested form}",
 				"text":    "CONCRETE POOL (not symbolic): 25 formulas through the real parser whose condition is a computed value (prefix operators on numeric / non-numeric text, arithmetic that yields zero, toFloat of junk) or whose unselected arm would fail (malformed assignment target, missing function, failing assertion, out-of-range position)",
@@ -152,12 +156,12 @@ func allChecks() []Check {
 		{
 			ID: "C07", Title: "Locals bind and sequence left to right; caller data is never modified",
 			Runs: []HarnessRun{
+				{Harness: "VP_C07_spread", Quick: map[string]int{}, MustReach: []string{"C07/spread/done"}, PanicLabel: "C07/spread/no-panic", SampleEvery: 1},
+				{Harness: "VP_C07_rebind", Quick: map[string]int{}, MustReach: []string{"C07/rebind/done"}, PanicLabel: "C07/rebind/no-panic", SampleEvery: 5},
 				{Harness: "VP_C07_locals", Quick: map[string]int{"N": 2, "D": 2}, Thorough: map[string]int{"N": 3, "D": 2}, MustReach: []string{"C07/locals/value", "C07/locals/error"}, PanicLabel: "C07/locals/no-panic"},
 				{Harness: "VP_C07_sequencing", Quick: map[string]int{"W": 2}, MustReach: []string{"C07/sequencing/done"}, PanicLabel: "C07/sequencing/no-panic"},
 				{Harness: "VP_C07_builtins", Quick: map[string]int{}, MustReach: []string{"C07/builtins/done"}, PanicLabel: "C07/builtins/no-panic"},
 				{Harness: "VP_C07_operators", Quick: map[string]int{}, MustReach: []string{"C07/operators/done"}, PanicLabel: "C07/operators/no-panic", SampleEvery: 41},
-				{Harness: "VP_C07_spread", Quick: map[string]int{}, MustReach: []string{"C07/spread/done"}, PanicLabel: "C07/spread/no-panic", SampleEvery: 1},
-				{Harness: "VP_C07_rebind", Quick: map[string]int{}, MustReach: []string{"C07/rebind/done"}, PanicLabel: "C07/rebind/no-panic", SampleEvery: 5},
 			},
 			Bounds: map[string]string{"operators": "$a = num, (FORM), [$a, num] through the real parser for 12 two-operand shapes x 14 operators and 11 one-operand shapes over 5 concrete numbers (incl. 19 digits): local, later read and caller's number unchanged, also when FORM fails; write monitor",
 				"spread":     "CONCRETE POOL: 8 formulas in which a local is assigned in one argument of a (spread) call / array element and read in another: left-to-right order",
@@ -171,8 +175,8 @@ func allChecks() []Check {
 		{
 			ID: "C08", Title: "Evaluation is a pure function of formula text and data",
 			Runs: []HarnessRun{
-				{Harness: "VP_C08_parse", Quick: map[string]int{"L": 2}, Thorough: map[string]int{"L": 3}, MustReach: []string{"C08/parse/accepted", "C08/parse/rejected"}, PanicLabel: "C08/parse/no-panic"},
 				{Harness: "VP_C08_pool", Quick: map[string]int{}, MustReach: []string{"C08/pool/done"}, PanicLabel: "C08/pool/no-panic", SampleEvery: 3},
+				{Harness: "VP_C08_parse", Quick: map[string]int{"L": 2}, Thorough: map[string]int{"L": 3}, MustReach: []string{"C08/parse/accepted", "C08/parse/rejected"}, PanicLabel: "C08/parse/no-panic"},
 				{Harness: "VP_C08_eval", Quick: map[string]int{"N": 2, "D": 2}, Thorough: map[string]int{"N": 3, "D": 2}, MustReach: []string{"C08/eval/done"}, PanicLabel: "C08/eval/no-panic"},
 			},
 			Bounds: map[string]string{"parse": "every text of L symbolic bytes parsed twice with unrelated parsing/evaluation/analysis in between: same verdict, same error text / structurally identical trees; write monitor over every cell reachable from the package-level variables of formula (incl. the builtin table)",
@@ -212,12 +216,12 @@ func allChecks() []Check {
 		{
 			ID: "C17", Title: "String builtins obey the laws of prefix, suffix, slice and pad",
 			Runs: []HarnessRun{
+				{Harness: "VP_C17_case", Quick: map[string]int{}, MustReach: []string{"C17/case/done"}, PanicLabel: "C17/case/no-panic", SampleEvery: 1},
+				{Harness: "VP_C17_regexp", Quick: map[string]int{}, MustReach: []string{"C17/regexp/done"}, PanicLabel: "C17/regexp/no-panic", SampleEvery: 23},
 				{Harness: "VP_C17_search", Quick: map[string]int{"S": 3}, Thorough: map[string]int{"S": 5}, MustReach: []string{"C17/search/done"}, PanicLabel: "C17/search/no-panic"},
 				{Harness: "VP_C17_slice", Quick: map[string]int{"S": 3}, Thorough: map[string]int{"S": 5}, MustReach: []string{"C17/slice/done"}, PanicLabel: "C17/slice/no-panic"},
 				{Harness: "VP_C17_pad", Quick: map[string]int{"S": 3}, Thorough: map[string]int{"S": 4}, MustReach: []string{"C17/pad/done"}, PanicLabel: "C17/pad/no-panic"},
 				{Harness: "VP_C17_transform", Quick: map[string]int{"S": 3}, Thorough: map[string]int{"S": 4}, MustReach: []string{"C17/transform/done"}, PanicLabel: "C17/transform/no-panic"},
-				{Harness: "VP_C17_case", Quick: map[string]int{}, MustReach: []string{"C17/case/done"}, PanicLabel: "C17/case/no-panic", SampleEvery: 1},
-				{Harness: "VP_C17_regexp", Quick: map[string]int{}, MustReach: []string{"C17/regexp/done"}, PanicLabel: "C17/regexp/no-panic", SampleEvery: 23},
 				{Harness: "VP_C17_lists", Quick: map[string]int{"S": 2}, Thorough: map[string]int{"S": 3}, MustReach: []string{"C17/lists/done"}, PanicLabel: "C17/lists/no-panic"},
 			},
 			Bounds: map[string]string{"case": "CONCRETE POOL (not symbolic): lower / upper on 13 texts outside ASCII (Latin-1, Greek, Cyrillic, a title-case digraph, CJK mixed with ASCII) against hand-written simple case mappings",
@@ -229,11 +233,11 @@ func allChecks() []Check {
 		{
 			ID: "C18", Title: "Numeric builtins and bit operators compute what their names say",
 			Runs: []HarnessRun{
+				{Harness: "VP_C18_trans", Quick: map[string]int{}, MustReach: []string{"C18/trans/done"}, PanicLabel: "C18/trans/no-panic", SampleEvery: 3},
+				{Harness: "VP_C18_inverse", Quick: map[string]int{}, MustReach: []string{"C18/inverse/done"}, PanicLabel: "C18/inverse/no-panic", SampleEvery: 3},
 				{Harness: "VP_C18_rounding", Quick: map[string]int{"CB": 1000, "E": 2, "H": 0}, Thorough: map[string]int{"CB": 1000000, "E": 4, "H": 0}, MustReach: []string{"C18/rounding/done"}, PanicLabel: "C18/rounding/no-panic"},
 				{Harness: "VP_C18_rounding", Quick: map[string]int{"CB": 100, "E": 1, "H": 1}, Thorough: map[string]int{"CB": 1000, "E": 2, "H": 1}, MustReach: []string{"C18/rounding/done"}, PanicLabel: "C18/rounding/no-panic"},
 				{Harness: "VP_C18_tostring", Quick: map[string]int{"CB": 32, "E": 24}, Thorough: map[string]int{"CB": 1000, "E": 24}, MustReach: []string{"C18/tostring/done"}, PanicLabel: "C18/tostring/no-panic"},
-				{Harness: "VP_C18_trans", Quick: map[string]int{}, MustReach: []string{"C18/trans/done"}, PanicLabel: "C18/trans/no-panic", SampleEvery: 3},
-				{Harness: "VP_C18_inverse", Quick: map[string]int{}, MustReach: []string{"C18/inverse/done"}, PanicLabel: "C18/inverse/no-panic", SampleEvery: 3},
 				{Harness: "VP_C18_minmax", Quick: map[string]int{"N": 3, "CB": 10}, Thorough: map[string]int{"N": 4, "CB": 10}, MustReach: []string{"C18/minmax/done"}, PanicLabel: "C18/minmax/no-panic"},
 				{Harness: "VP_C18_conv", Quick: map[string]int{"CB": 1000, "E": 2}, Thorough: map[string]int{"CB": 100000, "E": 3}, MustReach: []string{"C18/conv/done"}, PanicLabel: "C18/conv/no-panic"},
 				{Harness: "VP_C18_bits", Quick: map[string]int{"B": 6, "K": 2}, Thorough: map[string]int{"B": 10, "K": 2}, MustReach: []string{"C18/bits/done"}, PanicLabel: "C18/bits/no-panic"},
@@ -251,9 +255,9 @@ func allChecks() []Check {
 		{
 			ID: "C19", Title: "Date builtins agree with the proleptic Gregorian calendar and preserve instants",
 			Runs: []HarnessRun{
+				{Harness: "VP_C19_pool", Quick: map[string]int{}, MustReach: []string{"C19/pool/done"}, PanicLabel: "C19/pool/no-panic", SampleEvery: 1},
 				{Harness: "VP_C19_date", Quick: map[string]int{}, MustReach: []string{"C19/date/done"}, PanicLabel: "C19/date/no-panic", SampleEvery: 1},
 				{Harness: "VP_C19_fields", Quick: map[string]int{}, MustReach: []string{"C19/fields/done"}, PanicLabel: "C19/fields/no-panic", SampleEvery: 1},
-				{Harness: "VP_C19_pool", Quick: map[string]int{}, MustReach: []string{"C19/pool/done"}, PanicLabel: "C19/pool/no-panic", SampleEvery: 1},
 				{Harness: "VP_C19_zone", Quick: map[string]int{}, MustReach: []string{"C19/zone/done"}, PanicLabel: "C19/zone/no-panic", SampleEvery: 1},
 			},
 			Bounds: map[string]string{"pool": "CONCRETE POOL (not symbolic, real time package): 30 formulas through parser and runner at calendar boundaries (year 1 and the zero instant as an ordinary value, leap days of 1900/2000/2023/2024, month 0 / 13 / 14 and day 0 / 30 / 32 carry, week days, day shifts of 1 and 200000 days in milliseconds) with hand-written expectations",
@@ -273,11 +277,11 @@ func allChecks() []Check {
 		{
 			ID: "C11", Title: "Host functions are called exactly as declared, or not at all",
 			Runs: []HarnessRun{
-				{Harness: "VP_C11_hostcalls", Quick: map[string]int{"A": 2}, Thorough: map[string]int{"A": 3}, MustReach: []string{"C11/hostcalls/value", "C11/hostcalls/error"}, PanicLabel: "C11/hostcalls/no-panic"},
 				{Harness: "VP_C11_history", Quick: map[string]int{}, MustReach: []string{"C11/history/done"}, PanicLabel: "C11/history/no-panic", SampleEvery: 1},
 				{Harness: "VP_C11_results", Quick: map[string]int{}, MustReach: []string{"C11/results/value", "C11/results/error"}, PanicLabel: "C11/results/no-panic"},
-				{Harness: "VP_C11_trunc", Quick: map[string]int{"B": 16, "E": 0}, Thorough: map[string]int{"B": 8, "E": 1}, MustReach: []string{"C11/trunc/done"}, PanicLabel: "C11/trunc/no-panic"},
 				{Harness: "VP_C11_nested", Quick: map[string]int{}, MustReach: []string{"C11/nested/done"}, PanicLabel: "C11/nested/no-panic", SampleEvery: 3},
+				{Harness: "VP_C11_hostcalls", Quick: map[string]int{"A": 2}, Thorough: map[string]int{"A": 3}, MustReach: []string{"C11/hostcalls/value", "C11/hostcalls/error"}, PanicLabel: "C11/hostcalls/no-panic"},
+				{Harness: "VP_C11_trunc", Quick: map[string]int{"B": 16, "E": 0}, Thorough: map[string]int{"B": 8, "E": 1}, MustReach: []string{"C11/trunc/done"}, PanicLabel: "C11/trunc/no-panic"},
 			},
 			Bounds: map[string]string{"trunc": "x = (-1)^s * c * 10^e with c < 2^B symbolic and e in -E..E passed to int / int64 / float64 parameters: the received integer is x truncated toward zero, the received float is exact for integers and brackets the value otherwise (the bridge's float64 division is decided by the solver's floating-point theory); quick B=16,E=0 (integers: conversions only); thorough B=8,E=1 (with the float64 division by a power of ten)",
 				"nested":    "7 formulas whose arguments are themselves calls (first / middle / last position, two levels, variadic) on a fresh runner, after an earlier evaluation by the same runner, and after an earlier call in the same formula: the invocation log equals the left-to-right log with each call's own arguments",
@@ -325,9 +329,9 @@ func allChecks() []Check {
 		{
 			ID: "C15", Title: "Source ranges nest and re-parse; errors point at the right line and column",
 			Runs: []HarnessRun{
+				{Harness: "VP_C15_errpool", Quick: map[string]int{}, MustReach: []string{"C15/errpool/done"}, PanicLabel: "C15/errpool/no-panic", SampleEvery: 1},
 				{Harness: "VP_C15_linecol", Quick: map[string]int{"L": 4}, Thorough: map[string]int{"L": 5}, MustReach: []string{"C15/linecol/done"}},
 				{Harness: "VP_C15_binsearch", Quick: map[string]int{"N": 5}, Thorough: map[string]int{"N": 7}, MustReach: []string{"C15/binsearch/done"}},
-				{Harness: "VP_C15_errpool", Quick: map[string]int{}, MustReach: []string{"C15/errpool/done"}, PanicLabel: "C15/errpool/no-panic", SampleEvery: 1},
 				{Harness: "VP_C15_tokranges", Quick: map[string]int{"K": 3}, Thorough: map[string]int{"K": 4}, MustReach: []string{"C15/tokranges/accepted"}, PanicLabel: "C15/tokranges/no-panic"},
 				{Harness: "VP_C15_ranges", Quick: map[string]int{"L": 3}, Thorough: map[string]int{"L": 4}, MustReach: []string{"C15/ranges/accepted", "C15/errtext/diagnostic"}, PanicLabel: "C15/ranges/no-panic"},
 			},
